@@ -6,6 +6,7 @@ package config
 
 import (
 	"go/types"
+	"path/filepath"
 
 	"github.com/jmattheis/goverter/pkgload"
 	"golang.org/x/tools/go/packages"
@@ -53,6 +54,11 @@ func VerifHarness_C15_OutputFile() {
 		verifReach("cwd")
 		return
 	}
+	// @cwd/ with a relative working directory: the result is an absolute path below it
+	rel := &context{WorkDir: "rel/dir"}
+	c2 := &Converter{ConverterConfig: DefaultConfigInterface, Location: "conv.go:1", FileName: "/work/in.go", Package: "example.org/in"}
+	err2 := parseConverterLine(rel, c2, "output:file @cwd/out/gen.go")
+	verifAssert("cwd-output-with-relative-working-directory-is-absolute", err2 == nil && filepathIsAbs(c2.OutputFile) && VerifModelHasSuffix(c2.OutputFile, "rel/dir/out/gen.go"))
 	verifReach("plain")
 	verifAssert("plain-output-file-kept", err == nil && c.OutputFile == val)
 }
@@ -93,3 +99,5 @@ func VerifHarness_C15_ResolvePackage() {
 		verifAssert("name-left-to-inference", c.OutputPackageName == "")
 	}
 }
+
+func filepathIsAbs(p string) bool { return filepath.IsAbs(p) }
